@@ -21,8 +21,9 @@ def gen_cfg(rng, k_samplers=None):
     rng.shuffle(names)
     k = k_samplers or rng.randint(2, 9)
     lineup = [(nm, rng.randint(1, 4) if nm != "BestBatchSampler" else rng.randint(1, 2), rng.choice([None, 3])) for nm in names[:k]]
-    if lineup[0][0] in ("BestBatchSampler", "GaussianProcessSampler", "RandomForestSampler", "XGBoostSampler", "CORSSampler", "ParticleSwarmSampler"):
-        lineup.insert(0, ("HaltonSampler", 4, None))   # history-free first batch
+    if lineup[0][0] in ("BestBatchSampler", "GaussianProcessSampler", "RandomForestSampler", "XGBoostSampler", "CORSSampler", "ParticleSwarmSampler") \
+            or lineup[0][1] < 2:
+        lineup.insert(0, ("HaltonSampler", 4, None))   # history-free first batch, large enough for best-batch (needs >= batch_size points)
     return {"lineup": lineup, "dims": rng.randint(1, 4), "loss": rng.choice(twin.LOSSES), "ensemble": rng.randint(1, 3),
             "seed": rng.randrange(10 ** 6), "n_jobs": 1}
 
